@@ -115,7 +115,25 @@ def graph_case(draw, max_tasks=8, min_tasks=1, kinds=("cmd", "exp", "group", "co
     case["tape"] = draw(st.lists(st.sampled_from([0] * (2 * tape_hi) + list(range(1, tape_hi + 1))),
                                  min_size=tlen, max_size=tlen))
     case["foreign"] = draw(st.integers(0, 2)) if foreign else 0
+    # the same task name in different packages (catches state keyed by name instead of by identifier);
+    # not with combine tasks, which reject equally named dependencies
+    if len(pkgs) > 1 and not any(t["kind"] == "combine" for t in tasks) and draw(st.sampled_from(range(3))) == 0:
+        for i in range(1, n):
+            others = [j for j in range(i) if tasks[j]["pkg"] != tasks[i]["pkg"]
+                      and not any(x != i and tasks[x]["pkg"] == tasks[i]["pkg"] and tasks[x]["name"] == tasks[j]["name"] for x in range(n))]
+            if others and draw(st.booleans()):
+                tasks[i]["name"] = tasks[draw(st.sampled_from(others))]["name"]
+                case["same_names"] = True
     return case
+
+
+def dedupe_names(case):
+    """After a caller re-assigned packages: task names must be unique within a package."""
+    used = set()
+    for i, t in enumerate(case["tasks"]):
+        if (t["pkg"], t["name"]) in used:
+            t["name"] = "%s_%d" % (t["name"], i)
+        used.add((t["pkg"], t["name"]))
 
 
 @st.composite
@@ -355,6 +373,9 @@ def shape_labels(case):
                     labels.append("shortcut_edge")
                     labels.append("shortcut_dep_listed_after_sibling" if pos_w > pos_v
                                   else "shortcut_dep_listed_before_sibling")
+    names = [case["tasks"][x]["name"] for x in clo]
+    if len(set(names)) < len(names):
+        labels.append("same_name_in_two_packages")
     kinds = {case["tasks"][x]["kind"] for x in clo}
     if "group" in kinds or "combine" in kinds:
         labels.append("sync_op_in_closure")
